@@ -118,6 +118,24 @@ def grep_banned(modules):
     return hits
 
 
+def import_closure(roots):
+    """module names reachable through `import` lines from the given modules / root files of the lean project (only the project's own modules)"""
+    seen, todo = set(), list(roots)
+    while todo:
+        m = todo.pop()
+        if m in seen:
+            continue
+        seen.add(m)
+        path = os.path.join(LEAN, m) if m.endswith(".lean") else os.path.join(LEAN, m.replace(".", "/") + ".lean")
+        try:
+            src = open(path).read()
+        except OSError:
+            continue
+        for mm in re.findall(r"^import\s+(RedisGoModel[\w.]*)", src, re.M):
+            todo.append(mm)
+    return {m for m in seen if not m.endswith(".lean")}
+
+
 def audit(modules, theorems):
     """#print axioms for every registered theorem; returns {theorem: (ok, detail)} and seconds"""
     # a module that did not build has no object file: importing it would make EVERY theorem of the property "not checked"; leave it out, so
